@@ -468,5 +468,28 @@ seed("c20-temp-error-returns", "C20", "R-serve-loop", "server.go",
 				continue""", """				time.Sleep(tempDelay)
 				return err""", "temporary Accept error ends Serve")
 
+seed("c07-short-copy-positive", "C07", "R-no-positive-after-short-copy", "conn.go",
+"""	if err == nil && n != int64(size) {
+		// The connection was closed in the middle of the chunk, the
+		// message is incomplete.
+		err = io.ErrUnexpectedEOF
+	}
+	if err != nil {""", """	if err != nil || n != int64(size) {""", "short chunk answered by dataErrorToStatus(nil) = 250")
+seed("c20-close-first-listener-error", "C20", "R-close-effects", "server.go",
+"""		if lerr := l.Close(); lerr != nil && err == nil {
+			err = lerr
+		}
+	}
+
+	for conn := range s.conns {""", """		if lerr := l.Close(); lerr != nil {
+			s.locker.Unlock()
+			return lerr
+		}
+	}
+
+	for conn := range s.conns {""", "Close stops at the first failing listener")
+seed("c04-writeerror-callsite-enh", "C04", "R-err-passthrough", "conn.go",
+"""		c.writeResponse(smtpErr.Code, smtpErr.EnhancedCode, smtpErr.Message)""", """		c.writeResponse(smtpErr.Code, enhCode, smtpErr.Message)""", "backend code paired with the call site's enhanced code")
+
 json.dump(S, open(os.path.join(os.path.dirname(os.path.abspath(__file__)), "bank.json"), "w"), indent=1)
 print(len(S), "seeds")
